@@ -40,18 +40,18 @@ def main():
             base = os.path.basename(d)
             dest = "."
             text = " ".join(str(meta.get(k, "")) for k in ("demo_cmd",)) + " ".join(
-                open(f).read() for f in glob.glob(os.path.join(src, "*.txt")) + glob.glob(os.path.join(src, "*.sh")))
+                open(f, errors="replace").read() for f in glob.glob(os.path.join(src, "*.txt")) + glob.glob(os.path.join(src, "*.sh")))
             m = re.search(re.escape(base) + r"\s+(\S+)", text)
             if m:
                 cand = m.group(1).rstrip(";")
                 cand = re.sub(r"^/tmp/m[23]?/C\d+/repo/?", "", cand)
                 if cand not in ("", ".", "&&") and os.path.isdir(os.path.join(wt, cand)):
                     dest = cand
-            pk = re.search(r"^package\s+(\w+)", open(d).read(), flags=re.M).group(1)
+            pk = re.search(r"^package\s+(\w+)", open(d, errors="replace").read(), flags=re.M).group(1)
             if dest == "." and pk not in ("pdf", "pdf_test"):
                 # find a directory whose package name matches
                 for root, _, files in os.walk(wt):
-                    if any(f.endswith(".go") and re.search(r"^package\s+" + pk.replace("_test", "") + r"\b", open(os.path.join(root, f)).read(), flags=re.M)
+                    if any(f.endswith(".go") and re.search(r"^package\s+" + pk.replace("_test", "") + r"\b", open(os.path.join(root, f), errors="replace").read(), flags=re.M)
                            for f in files if f.endswith(".go") and not f.endswith("_test.go")):
                         dest = os.path.relpath(root, wt); break
             shutil.copy(d, os.path.join(wt, dest, base))
